@@ -92,6 +92,10 @@ def run(prop, tier):
                     rnd.sample(range(0, n), 600)))
                 cuts = [x for x in cuts if 0 <= x < n]
             args.append((200000 + i, it, cuts, 'memmap'))
+            # the self-describing formats also in update mode
+            if it['cfg']['fmt'] in ('uamiv', 'lateral_boundary') and \
+                    (tier != 'quick' or i % 3 == 0):
+                args.append((250000 + i, it, cuts, 'memmap+'))
         res = run_cases(camx.case_cuts, args, timeout=900, per_child=5,
                         chunksize=1)
         traces += res
